@@ -231,6 +231,9 @@ class C09(Prop):
             return f"valid call rejected: {io['err']}: {io.get('msg')}"
         nm = len(case["preds"])
         per_model = len(io["rows"]) // nm
+        if case["fkind"] == "numeric" and case["method"] == "quantile" and tc.quantile_rank_divergent(case["feature"], case["n_bins"]):
+            self.float_rank_divergent = getattr(self, "float_rank_divergent", 0) + 1
+            return None  # np.nanquantile's float rank picks a neighbouring order statistic: outside the exact model (counted)
         if case["fkind"] == "numeric" and tc.uniform_edge_tie(case["method"], fvalues(case), mo[0]["rows"]):
             self.edge_ties_skipped = getattr(self, "edge_ties_skipped", 0) + 1
             return None  # float edge arithmetic of 'uniform' is outside the model (counted)
@@ -351,7 +354,7 @@ class C09(Prop):
         return None
 
     def extra_coverage(self):
-        return {"numpy_bin_rule_depends_on_row_order_skipped": getattr(self, "numpy_order_dependent", 0), "edge_ties_skipped": getattr(self, "edge_ties_skipped", 0)}
+        return {"numpy_bin_rule_depends_on_row_order_skipped": getattr(self, "numpy_order_dependent", 0), "edge_ties_skipped": getattr(self, "edge_ties_skipped", 0), "float_rank_divergent": getattr(self, "float_rank_divergent", 0)}
 
     def nontrivial(self, case, io):
         return "rows" in io and sum(1 for r in io["rows"] if r["count"] > 1) >= 2
